@@ -472,7 +472,13 @@ namespace Pistache::Http
             }
 
             if (size == 0)
+            {
+                // the last-chunk is followed by the CRLF that ends the chunked body
+                if (cursor.remaining() < 2)
+                    return Incomplete;
+                cursor.advance(2);
                 return Final;
+            }
 
             message->body_.reserve(size);
             StreamCursor::Token chunkData(cursor);
